@@ -69,6 +69,8 @@ def main():
             key["what"] = "reads-back-stale" if "reads back rows" in m["what"] else "error"
         if m["kind"] in ("pool", "json"):
             key["field"] = m["what"].split("field ")[1].split(":")[0] if "field " in m["what"] else "?"
+            key["codec"] = "csv" if "CSV" in m["what"] else "json"
+            key["value"] = "crlf" if "\\r\\n" in m["what"] else "other"
         rp = {"mismatch": m}
         if m["kind"] == "file":
             rp["history"] = hists[m["case"]]
